@@ -943,7 +943,7 @@ def r_extent(db, rep):
     rep.notes.append("%d allocation/save pairs involve values the rule cannot relate (locals, loop-carried values)" % undecided)
 
 
-@rule("R-PADDING", 8, "every type moved by saveValue/loadValue is free of padding bytes")
+@rule("R-PADDING", 4, "every type moved by saveValue/loadValue is free of padding bytes")
 def r_padding(db, rep):
     seen = {}
     for f in db.funcs.values():
